@@ -355,23 +355,35 @@ def main():
                 broken.append(("harness-run", "harness exited %d: %s" % (p.returncode, harness_err[-800:])))
         except subprocess.TimeoutExpired:
             broken.append(("harness-run", "harness timed out"))
-    # ---- regex engine vs Go (standing check RX) for regex-dependent properties
+    # ---- standing sub-checks: regex engine vs Go regexp (RX), pure channel functions vs Go (PF)
     rx_cases = rx_bad = 0
-    if cfg.get("rx") and pid != "RX" and not any(b[0] in ("harness-build", "model-runner") for b in broken):
+    pf_cases = pf_bad = 0
+    subs = []
+    if cfg.get("rx") and pid != "RX":
+        subs.append(("RX", cfg.get("rx_n", 1500), "regex-engine", "Coq regex engine disagrees with Go regexp"))
+    if cfg.get("pf") and pid != "PF":
+        subs.append(("PF", cfg.get("pf_n", 3000), "pure-functions", "Coq transcription of the channel's pure functions disagrees with the Go functions"))
+    for sub, sub_n, tag, msg in subs:
+        if any(b[0] in ("harness-build", "model-runner") for b in broken):
+            break
         try:
-            p = subprocess.run([os.path.join(BIN, "harness"), "-seed", str(seed), "-n", str(cfg.get("rx_n", 1500)), "RX"],
+            p = subprocess.run([os.path.join(BIN, "harness"), "-seed", str(seed), "-n", str(sub_n), sub],
                                stdout=subprocess.PIPE, stderr=subprocess.PIPE,
                                env=dict(os.environ, VERIF_WORK=wd, VERIF_REPO=REPO, VERIF_DIR=VERIF), timeout=600)
             rxc = [json.loads(l) for l in p.stdout.decode("utf-8", "replace").splitlines() if l.startswith("{")]
             outs, _ = run_model([c["line"] for c in rxc])
-            rx_cases = len(rxc)
-            bad = [c for c, o in zip(rxc, outs) if c["obs"] != o]
-            rx_bad = len(bad) + (0 if len(outs) == len(rxc) else 1)
-            if rx_bad:
-                broken.append(("regex-engine", "Coq regex engine disagrees with Go regexp on %d of %d strings, e.g. %s" % (
-                    rx_bad, rx_cases, json.dumps(bad[0].get("replay"))[:300] if bad else "?")))
+            bad = [c for c, o in zip(rxc, outs) if c["obs"].strip() != o.strip() or c.get("oracle")]
+            nbad = len(bad) + (0 if len(outs) == len(rxc) and rxc else 1)
+            if sub == "RX":
+                rx_cases, rx_bad = len(rxc), nbad
+            else:
+                pf_cases, pf_bad = len(rxc), nbad
+            if nbad:
+                broken.append((tag, "%s on %d of %d inputs, e.g. %s%s" % (
+                    msg, nbad, len(rxc), json.dumps(bad[0].get("replay"))[:300] if bad else "?",
+                    (" (" + bad[0]["oracle"] + ")") if bad and bad[0].get("oracle") else "")))
         except subprocess.TimeoutExpired:
-            broken.append(("regex-engine", "RX timed out"))
+            broken.append((tag, sub + " timed out"))
 
     # ---- 6: model on the same cases
     model_cases = [c for c in cases if c.get("line")]
@@ -479,6 +491,7 @@ def main():
             "oracle_failures": len(oracle_fail), "known_finding_hits": {s: k["what"] for s, (k, _) in known_hits.items()},
             "kernel_reevaluated": kx_n, "kernel_agree": kx_ok,
             "rx_strings_checked": rx_cases, "rx_disagreements": rx_bad,
+            "pure_function_inputs_checked": pf_cases, "pure_function_disagreements": pf_bad,
             "broken": [{"what": w, "detail": d[:600]} for w, d in broken],
             "modelled_functions_changed_since_review": changed_funcs,
             "exhaustive": bool(cfg.get("exhaustive", False)),
